@@ -14,7 +14,7 @@ import (
 // Both go through Mapper.Read/Write only; no machine cycle elapses between a write and the reads.
 
 // machine states the sweeps start from
-var busStates = []string{"power-on", "lcd-off", "lcd-off+apu-off", "after-busy-rom", "mbc1-ram-enabled", "ch3-playing", "dma-in-flight"}
+var busStates = []string{"power-on", "lcd-off", "lcd-off+apu-off", "after-busy-rom", "mbc1-ram-enabled", "ch3-playing", "dma-in-flight", "dacs-on-idle", "dac3-on-fresh"}
 
 func busMachine(state string, repo string) (*machine.M, ref.CartKind) {
 	kind := ref.KNone
@@ -58,6 +58,20 @@ func busMachine(state string, repo string) (*machine.M, ref.CartKind) {
 		m.Map.Write(0xff1e, 0x87)
 		for i := 0; i < 40; i++ {
 			m.Hardware()
+		}
+	case "dac3-on-fresh":
+		m.Map.Write(0xff26, 0x80)
+		m.Map.Write(0xff1a, 0x80) // channel 3's DAC on, never triggered
+	case "dacs-on-idle":
+		// every DAC switched on, no channel triggered (after channel 3 has played once and was stopped by a power cycle)
+		for _, w := range [][2]uint16{{0xff26, 0x80}, {0xff1a, 0x80}, {0xff1c, 0x20}, {0xff1e, 0x87}} {
+			m.Map.Write(w[0], uint8(w[1]))
+		}
+		for i := 0; i < 300; i++ {
+			m.Hardware()
+		}
+		for _, w := range [][2]uint16{{0xff26, 0x00}, {0xff26, 0x80}, {0xff12, 0xf0}, {0xff17, 0xf0}, {0xff1a, 0x80}, {0xff21, 0xf0}} {
+			m.Map.Write(w[0], uint8(w[1]))
 		}
 	case "apu-busy":
 		// all four channels playing, every length counter one clock from expiry with length counting off,
@@ -195,6 +209,10 @@ func c06Check(l *explore.Local, repo string, c c06Case) *explore.Fail {
 		}
 		order = append(order, 0xff40, 0xff46)
 		for _, a := range order {
+			// every register is exercised from the named state itself, not from what the sweeps of the registers
+			// before it left behind (an NR52 sweep, for one, switches every DAC off)
+			m, _ = busMachine(c.State, repo)
+			rd, wr = m.Map.Read, m.Map.Write
 			reg := ref.IOReg(uint16(a))
 			isNR := a >= 0xff10 && a <= 0xff25
 			if reg.Kind == ref.ROwnedElsewhere || (isNR && !apuOn) {
@@ -422,10 +440,10 @@ func c07Region(w uint16) string {
 func init() {
 	register("C06", "model_checking", func(c *Ctx) {
 		if c.R != nil {
-			c.R.Rule = "through Mapper.Read/Write only, from 7 machine states: (plain) three complete write sweeps (ascending, descending, strided; distinct patterns) over WRAM+echo, HRAM, IE and, LCD off, VRAM and OAM, each followed by a complete read-back of all plain memory, plus all 256 values at region-boundary addresses with both mirror directions; (io) every address FF00-FF7F x all 256 values: read-back = (v & writable) | always-one | read-only bits; DIV/LY never take the value; unmapped read FF; (unusable) FEA0-FEFF read 00; a case = one (state, part)"
+			c.R.Rule = "through Mapper.Read/Write only, from 9 machine states: (plain) three complete write sweeps (ascending, descending, strided; distinct patterns) over WRAM+echo, HRAM, IE and, LCD off, VRAM and OAM, each followed by a complete read-back of all plain memory, plus all 256 values at region-boundary addresses with both mirror directions; (io) every address FF00-FF7F x all 256 values: read-back = (v & writable) | always-one | read-only bits; DIV/LY never take the value; unmapped read FF; (unusable) FEA0-FEFF read 00; a case = one (state, part)"
 			c.R.Assumptions = []string{"NR52 and JOYP's input nibble are owned by C18/C19/C22", "TIMA/TMA read-back is judged with the timer stopped", "LY with the LCD on is observed one machine cycle after the write (what a guest can see)"}
 		}
-		explore.Product(c.R, "read-back", explore.PartOpt{Bound: "no time elapses between write and read", Domain: "7 machine states x {plain, io, unusable}"},
+		explore.Product(c.R, "read-back", explore.PartOpt{Bound: "no time elapses between write and read", Domain: "9 machine states x {plain, io, unusable}"},
 			func(yield func(c06Case) bool) {
 				for _, s := range busStates {
 					for _, p := range []string{"plain", "io", "unusable"} {
@@ -442,7 +460,7 @@ func init() {
 			c.R.Assumptions = []string{"quick: every address FE00-FFFF, every 0x100-aligned address +-1 elsewhere and every region boundary +-1; thorough: all 65,536 addresses"}
 		}
 		vals := []uint8{0x00, 0xff, 0x55, 0xaa, 0x01, 0x80, 0x0a, 0xe5}
-		explore.Product(c.R, "write-effect-sets", explore.PartOpt{Bound: "single write, full-space diff", Domain: "7 machine states; plus FF10-FF3F x 8 values each written from a busy APU (all channels playing, length counters at 1, second half of a frame-sequencer period)"},
+		explore.Product(c.R, "write-effect-sets", explore.PartOpt{Bound: "single write, full-space diff", Domain: "9 machine states (FF10-FF3F: every write from the state itself); plus FF10-FF3F x 8 values each written from a busy APU (all channels playing, length counters at 1, second half of a frame-sequencer period)"},
 			func(yield func(c07Case) bool) {
 				// sound registers from a busy APU, every write from the state itself
 				for lo := 0xff10; lo < 0xff40; lo += 4 {
@@ -452,8 +470,11 @@ func init() {
 				}
 				for _, s := range busStates {
 					// FE00-FFFF completely
-					for lo := 0xfe00; lo < 0x10000; lo += 0x40 {
-						if !yield(c07Case{State: s, Lo: lo, Hi: lo + 0x3f, Vals: vals}) {
+					for lo := 0xfe00; lo < 0x10000; lo += 0x10 {
+						// the sound registers and wave RAM: every write from the state itself (a sweep over NR52 or NR30
+						// would otherwise destroy the state for the addresses after it)
+						fresh := lo >= 0xff10 && lo < 0xff40 && s != "after-busy-rom"
+						if !yield(c07Case{State: s, Lo: lo, Hi: lo + 0x0f, Vals: vals, Fresh: fresh}) {
 							return
 						}
 					}
